@@ -1,11 +1,11 @@
 #!/bin/bash
 # official run of a check against a seeded change: apply to /repo, run the quick check, undo straight afterwards
-ID="$1"; shift
+#   tools/run_seed.sh <seed dir name under seeded/> [check id]
+SEED="$1"; ID="${2:-${SEED%%-*}}"
 cd /verif
 [ -z "$(git -C /repo status --porcelain)" ] || { echo "/repo not clean"; exit 2; }
-git -C /repo apply "/verif/seeded/$ID/patch.diff" || exit 2
-export VF_EVIDENCE_DIR="/tmp/mut/official_ev" VF_REPLAY_DIR="/tmp/mut/official_rp_$ID"
-./vf check "$ID" "$@" > "/tmp/mut/official_$ID.log" 2>&1; RC=$?
+git -C /repo apply "/verif/seeded/$SEED/patch.diff" || exit 2
+export VF_EVIDENCE_DIR="/tmp/mut/official_ev" VF_REPLAY_DIR="/tmp/mut/official_rp_$SEED"
+./vf check "$ID" > "/tmp/mut/official_$SEED.log" 2>&1; RC=$?
 git -C /repo checkout -- .
-echo "exit=$RC" >> "/tmp/mut/official_$ID.log"
-echo "$ID exit=$RC $(grep -E "^C[0-9]+ \[" /tmp/mut/official_$ID.log | tail -1)"
+echo "$SEED check=$ID exit=$RC $(grep -E "^C[0-9]+ \[" /tmp/mut/official_$SEED.log | tail -1)"
